@@ -91,12 +91,18 @@ class Translator:
         return res
 
     def translate(self, jobs):
-        """jobs: list of (mode, launcher, source) -> list of translated text / 'ERR' / 'CRASH ...'"""
+        """jobs: list of (mode, 0|1|2, source) -> list of translated text / 'ERR' / 'CRASH ...';
+        with 2: pairs (kernel source, launcher source) from one parse"""
         out = self.batch(["%s %d %s" % (m, l, s.encode().hex()) for m, l, s in jobs])
         res = []
-        for o in out:
+        for (m, l, src), o in zip(jobs, out):
             if o == "ERR" or o.startswith("CRASH"):
-                res.append(o)
+                res.append((o, o) if l == 2 else o)
+            elif l == 2:
+                parts = o.split()
+                dev = bytes.fromhex(parts[0]).decode("utf8", "replace")
+                lau = bytes.fromhex(parts[1]).decode("utf8", "replace") if len(parts) > 1 else ""
+                res.append((dev, lau))
             else:
                 res.append(bytes.fromhex(o).decode("utf8", "replace"))
         return res
@@ -532,8 +538,7 @@ def process(lines, driver_exe, workdir):
             for m in CPU:
                 jobs.append((m, 0, c["src"]))
             for m in GPU:
-                jobs.append((m, 0, c["src"]))
-                jobs.append((m, 1, c["src"]))
+                jobs.append((m, 2, c["src"]))
         except Malformed:
             c["malformed"] = True
         cases.append(c)
@@ -548,8 +553,8 @@ def process(lines, driver_exe, workdir):
             c["tr"][m] = outs[j]
             j += 1
         for m in GPU:
-            c["tr"][m] = (outs[j], outs[j + 1])
-            j += 2
+            c["tr"][m] = outs[j]
+            j += 1
         flat = [c["tr"][m] for m in CPU] + [x for m in GPU for x in c["tr"][m]]
         c["all_err"] = all(x == "ERR" for x in flat)
         c["any_bad"] = any(x == "ERR" or x.startswith("CRASH") for x in flat)
